@@ -21,7 +21,7 @@ from simcore import env
 from simcore.rng import Rng
 
 SIZES = [0, 1, 2, 63, 64, 65, 127, 128, 129, 4095, 4096, 4097, 8191, 8192, 8193, 65536]
-NAMES = ["a", "b", "c", "d", "f1", "f2", "x.txt", "Y", "data.bin", ".hidden", "sp ace", "ü"]
+NAMES = ["a", "b", "c", "d", "f1", "f2", "x.txt", "Y", "y", "data.bin", ".hidden", "sp ace", "ü", "u\u0308", "caf\u00e9", "cafe\u0301"]
 
 
 def content(e):
